@@ -13,7 +13,7 @@ import (
 func init() {
 	register("C19", &propDef{
 		Title: "No entry point panics, crashes or hangs on any input",
-		Rules: []func(*Checker){ruleC19Recursion, ruleC19Block, ruleC19Index, ruleC19Panics},
+		Rules: []func(*Checker){ruleC19Recursion, ruleC19Block, ruleC19Index, ruleC19Panics, ruleC19LibPanics},
 		NotDecided: []string{
 			"total running time; panics inside libraries",
 			"explicit 'cannot happen' panics whose unreachability rests on library behaviour are inventoried (C19.panics) and their guards checked where structural, but not proved unreachable",
@@ -1011,4 +1011,63 @@ func fieldPathKey(v ssa.Value, site ssa.Instruction, depth int) (string, bool) {
 		return fmt.Sprintf("%p", x), true
 	}
 	return "", false
+}
+
+// C19.libpanics — library calls known to panic on some input are only made
+// where the panic is turned into an error.
+var panickingLibCalls = map[string]string{
+	"github.com/apparentlymart/go-versions/versions.ParseVersion":     "panics (strconv.ParseUint range error) on a number of 2^64 or more",
+	"github.com/apparentlymart/go-versions/versions.MustParseVersion": "panics on any invalid version",
+	"regexp.MustCompile": "panics on an invalid expression",
+}
+
+func ruleC19LibPanics(c *Checker) {
+	const R = "C19.libpanics"
+	c.rule(R, "Library functions known to panic on some argument (versions.ParseVersion on a number ≥ 2^64, the Must* constructors) are called with a value that is not a constant only from a function that recovers: a deferred closure calling recover() whose recovering path makes the function return a non-nil error. One line of reason per table entry; init-time calls on constants are exempt.", 2)
+	p := c.P
+	n := 0
+	for _, fn := range p.Funcs {
+		if !p.InModule(fn) || isInitFunc(fn) {
+			continue
+		}
+		if fn.Object() != nil && strings.HasPrefix(fn.Name(), "Must") {
+			continue // documented to panic
+		}
+		for _, ci := range callsIn(fn) {
+			o := calleeObj(ci)
+			if o == nil {
+				continue
+			}
+			why, bad := panickingLibCalls[fullName(o)]
+			if !bad || len(ci.Common().Args) == 0 {
+				continue
+			}
+			if _, isC := canon(ci.Common().Args[0]).(*ssa.Const); isC {
+				continue
+			}
+			n++
+			// the enclosing function recovers
+			recovers := false
+			for _, a := range fn.AnonFuncs {
+				isDeferred := false
+				eachInstr(fn, func(in ssa.Instruction) {
+					if d, ok := in.(*ssa.Defer); ok {
+						if mc, ok := d.Call.Value.(*ssa.MakeClosure); ok && mc.Fn == ssa.Value(a) {
+							isDeferred = true
+						}
+					}
+				})
+				if !isDeferred {
+					continue
+				}
+				for _, c2 := range callsIn(a) {
+					if b, ok := c2.Common().Value.(*ssa.Builtin); ok && b.Name() == "recover" {
+						recovers = true
+					}
+				}
+			}
+			c.check(recovers, R, p.FuncName(fn), "call of "+shortCallee(fullName(o)), p.Pos(ci.Pos()), "inside a function whose deferred closure recovers", shortCallee(fullName(o))+" "+why+" and is handed text from outside in a function that does not recover: the caller of a parser or of OpenDir crashes instead of getting an error")
+		}
+	}
+	c.check(n > 0, R, "-", "guarded library calls", "-", fmt.Sprintf("%d call(s) of panicking library functions on non-constant input", n), "no call of versions.ParseVersion on input found (versions are no longer parsed from text?)")
 }
